@@ -1943,6 +1943,17 @@ impl StorageEngine {
         let shard = self.get_shard(db, &key)?;
         let mut shard_guard = shard.write().unwrap();
         
+        // An empty value changes nothing: report the current length (0 for a missing key)
+        if value.is_empty() {
+            return match shard_guard.data.get(&key) {
+                Some(stored_value) => match &stored_value.value {
+                    Value::String(bytes) => Ok(bytes.len()),
+                    _ => Err(StorageError::WrongType.into()),
+                },
+                None => Ok(0),
+            };
+        }
+        
         let new_len = if let Some(stored_value) = shard_guard.data.get_mut(&key) {
             match &mut stored_value.value {
                 Value::String(bytes) => {
